@@ -297,11 +297,13 @@ def configs(tier, seed):
                 out.append(dict(base, id=f"layers/{name}/len{n}/other", not_first=firsts))
             else:
                 out.append(dict(base, id=f"layers/{name}/len{n}"))
-    for what, table in (("request", {**_cp.COMPOSITES, **{k: _cp.EXTRA_REQUESTS[k] for k in ("table-empty-row", "const-bytefield", "const-string")}}),
+    for what, table in (("request", {**_cp.COMPOSITES, **{k: _cp.EXTRA_REQUESTS[k] for k in ("table-empty-row", "const-bytefield", "const-string",
+                                                              "endmarker-field-limited-end-dop")}}),
                         ("response", {**_cp.RESPONSES, **_cp.DECODE_ONLY_RESPONSES})):
         for name in table:
             for n in range(0, (7 if tier == "quick" else 10)):
-                if tier == "quick" and name == "dynlen-field-varitem" and n > 4:
+                if tier == "quick" and name in ("dynlen-field-varitem",
+                                                 "endmarker-field-limited-end-dop") and n > 4:
                     continue  # 256 x 16 value-forks per item: thorough tier only
                 out.append({"id": f"compdec/{what}/{name}/len{n}", "harness": "compdec", "what": what,
                             "name": name, "mlen": n, "build": {"what": what, "name": name}})
